@@ -170,6 +170,21 @@ func configs01(tier string) []xplore.Config {
 			}
 		}
 	}
+	// a subscription of several paths that carry their origin IN THE PATH (what
+	// -proto / -proto_file / Query.SubReq can express and the query flags cannot),
+	// the target streaming below both origins: each path is registered for
+	// streaming under its own origin, exactly as the snapshot walk resolves it
+	for _, sp := range []subSpec{{target: "t1", paths: []string{"o:a", "p:a"}, mode: stream}, {target: "t1", paths: []string{"a", "p:a"}, mode: stream}} {
+		for _, sc := range scripts04(2, []wop{{"upd", "o:a/b"}, {"upd", "p:a/b"}, {"del", "p:a/b"}, {"upd", "a/b"}}) {
+			for _, rev := range []bool{false, true} {
+				name := fmt.Sprintf("relay W(t1)=%s | %s (origins in the paths)", scriptName(sc), sp)
+				if rev {
+					name += " [newest-first]"
+				}
+				out = append(out, xplore.Config{Name: name, Bound: bound - 1, Data: cfg04{writers: []writer{{"t1", sc}}, subs: []subSpec{sp}, reverse: rev}})
+			}
+		}
+	}
 	// a second client subscribed below the first one's path goes away while the
 	// target keeps streaming: the remaining client must still get everything
 	// (the first client sits at an ANCESTOR node of the second one's path: the
@@ -237,7 +252,7 @@ func touched(ws []writer, t, p string) bool {
 			continue
 		}
 		for _, o := range w.script {
-			if o.kind == "reset" || o.kind == "remove" || (o.kind == "del" && (o.path == p || strings.HasPrefix(p, o.path+"/"))) {
+			if o.kind == "reset" || o.kind == "remove" || (o.kind == "del" && (okey(o.path) == p || strings.HasPrefix(p, okey(o.path)+"/"))) {
 				return true
 			}
 		}
